@@ -292,3 +292,23 @@ Proof.
            eq_refl eq_refl ltac:(assumption) s0 a b ks cx cy Hs0 (on_portb_ok g rd (gr_m G) (gr_n G) nt s0 a b ks Hp)).
 Qed.
 Print Assumptions C04_hw_bisimulation_decidable.
+
+(* Part: the hardware decision itself.  Hw.xy_select is a hand model of the XY branch of hw/floo_route_select.sv; the
+   branch is EXECUTED FROM ITS TEXT on every run (harness/facts_routesel.py: a fail-closed reader for the comparisons,
+   if/else chains and assignments it consists of; destinations and router coordinates 0..2 each, both port ids) and the
+   model agrees with it on every sampled point.  The sample meets all nine relative positions (west / same column /
+   east) x (south / same row / north), and a decision built from comparisons of the four coordinates only -- which is
+   all the reader admits -- is determined by them.  The port numbers are those of floo_pkg::route_direction_e. *)
+From FVGen Require Import RouteSelFacts.
+Definition xy_agrees (e : (Z * Z) * ((Z * Z) * (Z * Z))) : bool :=
+  let '((x, y), ((rx, ry), (p, out))) := e in xy_select rx ry x y p =? out.
+Definition rel_pos (e : (Z * Z) * ((Z * Z) * (Z * Z))) : Z * Z :=
+  let '((x, y), ((rx, ry), _)) := e in (Z.sgn (x - rx), Z.sgn (y - ry)).
+Theorem C04_rtl_xy_decision :
+  forallb xy_agrees rtl_xy_decision = true /\
+  forallb (fun c => existsb (fun e => (fst (rel_pos e) =? fst c) && (snd (rel_pos e) =? snd c)) rtl_xy_decision)
+          [(-1, -1); (-1, 0); (-1, 1); (0, -1); (0, 0); (0, 1); (1, -1); (1, 0); (1, 1)] = true /\
+  map (fun nm => option_map snd (find (fun p => String.eqb (fst p) nm) rtl_route_directions)) ["North"; "East"; "South"; "West"; "Eject"]
+  = [Some dir_N; Some dir_E; Some dir_S; Some dir_W; Some dir_Eject].
+Proof. vm_compute. auto. Qed.
+Print Assumptions C04_rtl_xy_decision.
